@@ -85,8 +85,25 @@ def ref_deref(ctx: Ctx) -> RuleResult:
     res = ctx.method("UsageExecNode", "result")
     src = ast.unparse(res.node)
     p = res.node.args.args[1].arg
-    has_member = any(isinstance(x, ast.Compare) and isinstance(x.ops[0], ast.In) and norm_src(x.left) == "self.id"
+    has_member = any(isinstance(x, ast.Compare) and isinstance(x.ops[0], (ast.In, ast.NotIn)) and norm_src(x.left) == "self.id"
                      and dotted(x.comparators[0]) == p for x in ast.walk(res.node))
+    if has_member:
+        # the absent case must yield None (not raise, not another value)
+        mif = [x for x in res.node.body if isinstance(x, ast.If) and isinstance(x.test, ast.Compare)
+               and isinstance(x.test.ops[0], (ast.In, ast.NotIn)) and norm_src(x.test.left) == "self.id"]
+        if len(mif) == 1:
+            is_none = lambda st: isinstance(st, ast.Return) and (st.value is None or (isinstance(st.value, ast.Constant) and st.value.value is None))  # noqa: E731
+            if isinstance(mif[0].test.ops[0], ast.In):
+                rest = res.node.body[res.node.body.index(mif[0]) + 1:]
+                absent_none = (bool(rest) and is_none(rest[0])) or (not rest) or (bool(mif[0].orelse) and is_none(mif[0].orelse[0]))
+            else:
+                absent_none = bool(mif[0].body) and is_none(mif[0].body[0])
+            if not absent_none:
+                r.ob(False)
+                r.violate("UsageExecNode.result: an absent id does not read as None", res.loc(mif[0]),
+                          "results of nodes that were not executed (sub-graph runs, deactivated nodes) must read as None", None)
+        else:
+            has_member = False
     uses_key = any(isinstance(x, ast.Attribute) and x.attr == "key" and dotted(x.value) == "self" for x in ast.walk(res.node))
     r.ob(has_member and uses_key, {"accessor": "UsageExecNode.result", "membership test": has_member, "applies key path": uses_key})
     if not uses_key:
